@@ -31,7 +31,7 @@ CHECKS = {
             "settings; header mode, Metadata closure flag, segment length, CRC flag, id widths, sequence numbers judged on every "
             "emitted PDU; twin run without the premature requests must produce the same trace", "5 C19", "PutModel + twin-run differential"),
     "C20": ("routing table and routing/admission agreement judged on every routed PDU incl. synthetic kinds and header variants; "
-            "misroute and bad-status faults; the finite table (kind x direction flag x mode x CRC x id width x handler state x routed / misrouted, 1728 cells) is swept completely before the seeded search", "5 C20, 12", "in-situ oracle + misroute fault; complete table sweep"),
+            "misroute and bad-status faults; the finite table (kind x direction flag x mode x CRC x id width x handler state x receiving entity x routed / misrouted, 4608 cells) is swept completely before the seeded search", "5 C20, 12", "in-situ oracle + misroute fault; complete table sweep"),
     "C11": ("differential: the same transaction (own slice of the decision tape) executed on fresh handlers, after a tape-chosen "
             "history of completed / cancelled / faulted / abandoned / reset transactions on the same handler objects, and beside a "
             "sibling pair of handler instances interleaved by the same scheduler; normalised observable traces and final file "
